@@ -133,3 +133,4 @@ CFG['rule'] = CFG['rule'] + ' ' + 'One history in sixteen contains an oversized 
 
 CFG['rule'] = CFG['rule'] + ' ' + 'In every second history every delete batch and every other batch from the second on fails ONCE at one fault position and is not repeated (the history goes on from the unchanged state on the same shard object); a plain insert of up to three points follows a delete that failed this way, executed once without a fault sweep.'
 CFG['rule'] = CFG['rule'] + ' ' + 'One history in six has a graph index whose binary quantiser learns its threshold inside the history.'
+CFG['rule'] = CFG['rule'] + ' ' + 'Three histories of four have a case-insensitive string-array index; the ill-typed values include an empty string (as a string value and as an array element): the file store refuses the empty key when the index is flushed, the batch is rejected as a whole.'
